@@ -1,0 +1,71 @@
+//go:build verif
+
+// Machine-checked contracts for package announcequeue (comment-only; read by /verif/govc).
+// Property C20: the queue holds each torrent at most once, ready and pending are disjoint,
+// Next serves the oldest ready torrent, Eject removes a torrent completely.
+//
+// View: the ready set is the set of list elements e with e.list == q.readyQueue, ordered by
+// the rank of the container/list model; the pending set is {h : q.pending[h]}.
+
+package announcequeue
+
+//@ specfunc qtyped(q *QueueImpl) bool = forall e *list.Element :: e.list == q.readyQueue ==> e.Value != nil && dyntype(e.Value) == typeid(core.InfoHash)
+//@ specfunc qonce(q *QueueImpl) bool = forall e1 *list.Element, e2 *list.Element :: e1.list == q.readyQueue && e2.list == q.readyQueue && e1 != e2 ==> e1.Value != e2.Value
+//@ specfunc qdisjoint(q *QueueImpl) bool = forall e *list.Element :: e.list == q.readyQueue ==> !q.pending[unbox(e.Value, core.InfoHash)]
+//@ specfunc qshape(q *QueueImpl) bool = q != nil && q.readyQueue != nil && q.pending != nil
+//@ specfunc qinv(q *QueueImpl) bool = qshape(q) && qtyped(q) && qonce(q) && qdisjoint(q)
+
+//@ func New
+//@   ensures inv: qinv(result)
+//@   ensures empty: result.readyQueue.len == 0 && (forall h core.InfoHash :: !result.pending[h])
+
+//@ func QueueImpl.Next
+//@   requires qinv(q)
+//@   nopanic
+//@   modifies every list.Element.list, q.readyQueue.len, map q.pending
+//@   ensures inv: qinv(q)
+//@   ensures empty: !result1 <==> old(q.readyQueue.len) == 0
+//@   ensures empty_unchanged: !result1 ==> (forall e *list.Element :: (e.list == q.readyQueue) <==> old(e.list == q.readyQueue)) && (forall k core.InfoHash :: q.pending[k] == old(q.pending[k]))
+//@   ensures oldest: result1 ==> (forall e *list.Element, x *list.Element :: old(e.list == q.readyQueue) && e.Value == box(result0) && old(x.list == q.readyQueue) ==> e.rank <= x.rank)
+//@   ensures one_left: result1 ==> q.readyQueue.len == old(q.readyQueue.len) - 1
+//@   ensures moved: result1 ==> q.pending[result0] && (forall e *list.Element :: e.list == q.readyQueue ==> e.Value != box(result0))
+//@   ensures others_ready: result1 ==> (forall e *list.Element :: e.Value != box(result0) ==> ((e.list == q.readyQueue) <==> old(e.list == q.readyQueue)))
+//@   ensures others_pending: result1 ==> (forall k core.InfoHash :: k != result0 ==> q.pending[k] == old(q.pending[k]))
+
+//@ func QueueImpl.Ready
+//@   requires qinv(q)
+//@   modifies q.readyQueue.len, q.readyQueue.hi, map q.pending
+//@   ensures inv: qinv(q)
+//@   ensures noop: !old(q.pending[h]) ==> (forall e *list.Element :: (e.list == q.readyQueue) <==> old(e.list == q.readyQueue)) && (forall k core.InfoHash :: q.pending[k] == old(q.pending[k]))
+//@   ensures moved: old(q.pending[h]) ==> !q.pending[h] && q.readyQueue.len == old(q.readyQueue.len) + 1
+//@   ensures at_back: old(q.pending[h]) ==> (forall e *list.Element :: e.list == q.readyQueue && e.Value == box(h) ==> (forall x *list.Element :: x.list == q.readyQueue ==> x.rank <= e.rank))
+//@   ensures others_pending: forall k core.InfoHash :: k != h ==> q.pending[k] == old(q.pending[k])
+//@   ensures others_ready: forall e *list.Element :: old(allocated(e)) ==> ((e.list == q.readyQueue) <==> old(e.list == q.readyQueue))
+
+//@ func QueueImpl.Eject
+//@   requires qinv(q)
+//@   nopanic
+//@   modifies every list.Element.list, q.readyQueue.len, map q.pending
+//@   ensures inv: qinv(q)
+//@   ensures gone_ready: forall e *list.Element :: e.list == q.readyQueue ==> e.Value != box(h)
+//@   ensures gone_pending: !q.pending[h]
+//@   ensures others_ready: forall e *list.Element :: e.Value != box(h) ==> ((e.list == q.readyQueue) <==> old(e.list == q.readyQueue))
+//@   ensures others_pending: forall k core.InfoHash :: k != h ==> q.pending[k] == old(q.pending[k])
+//@   loop 0 invariant shape: qshape(q) && qtyped(q) && qonce(q) && qdisjoint(q) && listwf(q.readyQueue)
+//@   loop 0 invariant cursor: e != nil ==> allocated(e) && e.list == q.readyQueue
+//@   loop 0 invariant scanned: e != nil ==> (forall x *list.Element :: x.list == q.readyQueue && x.rank < e.rank ==> x.Value != box(h))
+//@   loop 0 invariant done: e == nil ==> (forall x *list.Element :: x.list == q.readyQueue ==> x.Value != box(h))
+//@   loop 0 invariant others: forall x *list.Element :: x.Value != box(h) ==> ((x.list == q.readyQueue) <==> old(x.list == q.readyQueue))
+//@   loop 0 invariant pend: !q.pending[h] && (forall k core.InfoHash :: k != h ==> q.pending[k] == old(q.pending[k]))
+
+//@ func QueueImpl.Add
+//@   requires qinv(q)
+//@   modifies q.readyQueue.len, q.readyQueue.hi
+//@   ensures shape: qshape(q) && qtyped(q) && qdisjoint_except(q, h)
+//@   ensures once_if_new: old(notQueued(q, h)) ==> qinv(q)
+//@   ensures once_always: qonce(q) && qdisjoint(q)
+//@   ensures at_back: forall e *list.Element :: e.list == q.readyQueue && !old(allocated(e)) ==> e.Value == box(h) && (forall x *list.Element :: x.list == q.readyQueue ==> x.rank <= e.rank)
+//@   ensures others_ready: forall e *list.Element :: old(allocated(e)) ==> ((e.list == q.readyQueue) <==> old(e.list == q.readyQueue))
+
+//@ specfunc notQueued(q *QueueImpl, h core.InfoHash) bool = !q.pending[h] && (forall e *list.Element :: e.list == q.readyQueue ==> e.Value != box(h))
+//@ specfunc qdisjoint_except(q *QueueImpl, h core.InfoHash) bool = forall e *list.Element :: e.list == q.readyQueue && e.Value != box(h) ==> !q.pending[unbox(e.Value, core.InfoHash)]
